@@ -219,54 +219,126 @@ def check_builders(facts, tr, rep, crate, rule):
                 bad = "default" in kinds and not ({"self", "param"} & kinds)
                 if bad and type_changing and generic_field:
                     continue      # a field whose type changes with the builder's type cannot be carried over
+                mixes = "self-other" in kinds and "param" not in kinds and "self-whole" not in kinds
+                if mixes:
+                    rep.ob(rule, skey(b, "setter-mix." + f), False, "%s:%d" % (b.span["file"], b.span["line"]),
+                           "builder method `%s` does not carry `%s` over unchanged: the new value is computed from another field of the "
+                           "builder, so a default that should be resolved at build() is frozen here and the result depends on the order "
+                           "of the builder calls" % (b.name, f))
                 rep.ob(rule, skey(b, "setter." + f), not bad, "%s:%d" % (b.span["file"], b.span["line"]),
                        "builder method %s keeps field `%s` (%s)" % (b.name, f, "/".join(sorted(kinds)) or "self") if not bad else
                        "builder method `%s` returns a builder whose `%s` comes from a freshly defaulted builder instead of `self.%s`: a value "
                        "configured before this call is silently dropped" % (b.name, f, f))
         else:
-            # build(self) -> other ADT: same-named fields must be computed from the builder's field
+            # build(self) -> other ADT: same-named fields must be computed from the builder's field.
+            # The configuration struct may be the returned value or be built on the way (build() -> Layer::new(config)).
+            handled = set()
+            counted = False
             radt = facts.adt(rt.get("def"))
-            if radt is None or radt["kind"] != "struct":
-                continue
-            rfields = [f["name"] for f in radt["variants"][0]["fields"]]
-            common = [f for f in rfields if f in self_fields]
-            if len(common) < 2:
-                continue
-            n += 1
-            rep.saw(b)
-            for (i, j, node) in ret_assigns(tr, b):
-                for lf in leaves(node):
-                    lf = peel(lf)
-                    if lf[0] == "call":
-                        # a chain of setter calls on the other builder type
-                        cc = tr.call_of(lf)
-                        for f in common:
-                            if ctypes[f]["s"].startswith("core::marker::PhantomData"):
+            if radt is not None and radt["kind"] == "struct":
+                rfields = [f["name"] for f in radt["variants"][0]["fields"]]
+                common = [f for f in rfields if f in self_fields]
+                if len(common) >= 2:
+                    n += 1
+                    counted = True
+                    rep.saw(b)
+                    for (i, j, node) in ret_assigns(tr, b):
+                        for lf in leaves(node):
+                            lf = peel(lf)
+                            if lf[0] == "call":
+                                # a chain of setter calls on the other builder type
+                                cc = tr.call_of(lf)
+                                for f in common:
+                                    if ctypes[f]["s"].startswith("core::marker::PhantomData"):
+                                        continue
+                                    kinds = _classify_call_field(tr, b, cc, f, f, st["def"], 0)
+                                    bad = "default" in kinds and not ({"self", "param"} & kinds)
+                                    if "unknown" in kinds and not bad:
+                                        continue
+                                    rep.ob(rule, skey(b, "rebuild." + f), not bad, "%s:%d" % (b.span["file"], b.span["line"]),
+                                           "`%s` is carried over into the rebuilt %s" % (f, rt["def"].split("::")[-1]) if not bad else
+                                           "method `%s` rebuilds a %s through a fresh builder and never sets `%s` from `self.%s`: the value configured "
+                                           "before this call is silently dropped" % (b.name, rt["def"].split("::")[-1], f, f))
                                 continue
-                            kinds = _classify_call_field(tr, b, cc, f, f, st["def"], 0)
-                            bad = "default" in kinds and not ({"self", "param"} & kinds)
-                            if "unknown" in kinds and not bad:
+                            if lf[0] != "agg":
                                 continue
-                            rep.ob(rule, skey(b, "rebuild." + f), not bad, "%s:%d" % (b.span["file"], b.span["line"]),
-                                   "`%s` is carried over into the rebuilt %s" % (f, rt["def"].split("::")[-1]) if not bad else
-                                   "method `%s` rebuilds a %s through a fresh builder and never sets `%s` from `self.%s`: the value configured "
-                                   "before this call is silently dropped" % (b.name, rt["def"].split("::")[-1], f, f))
+                            b2, rv = tr.agg_of(lf)
+                            if rv.get("def") != rt.get("def"):
+                                continue
+                            handled.add((b2.def_, lf[3], lf[4]))
+                            _check_build_agg(tr, rep, rule, b, b2, rv, (lf[3], lf[4]), common, ctypes, self_fields)
+            # configuration structs built inside the method (not the returned value itself)
+            for i, blk in enumerate(b.blocks):
+                for j, s_ in enumerate(blk["stmts"]):
+                    if s_["k"] != "assign" or s_["rv"]["k"] != "agg" or s_["rv"].get("ak") != "adt":
                         continue
-                    if lf[0] != "agg":
+                    rv = s_["rv"]
+                    if (b.def_, i, j) in handled or rv.get("def") == st["def"]:
                         continue
-                    b2, rv = tr.agg_of(lf)
-                    if rv.get("def") != rt.get("def"):
+                    a2 = facts.adt(rv.get("def"))
+                    if a2 is None or a2["kind"] != "struct" or not rv.get("def", "").startswith(crate):
                         continue
-                    for f in common:
-                        if f not in rv["fields"] or ctypes[f]["s"].startswith("core::marker::PhantomData"):
-                            continue
-                        val = tr.expand(tr.operand(b2, rv["ops"][rv["fields"].index(f)], (lf[3], lf[4])))
-                        ok = any(x[0] == "field" and x[2] == f and _rooted_in_self(x, b) for x in tr.walk(val, limit=120))
-                        rep.ob(rule, skey(b, "build." + f), ok, where(b2, lf[3], lf[4]),
-                               "`%s` of the built %s is computed from the builder's `%s`" % (f, rt["def"].split("::")[-1], f) if ok else
-                               "`%s` of the built %s is not computed from the builder's `%s` (%s): the configured value never reaches the "
-                               "mechanism" % (f, rt["def"].split("::")[-1], f, show(peel(val))))
+                    common2 = [f for f in rv.get("fields", []) if f in self_fields]
+                    if len(common2) < 2:
+                        continue
+                    if not counted:
+                        n += 1
+                        counted = True
+                        rep.saw(b)
+                    _check_build_agg(tr, rep, rule, b, b, rv, (i, j), common2, ctypes, self_fields)
     return n
+
+
+def _check_build_agg(tr, rep, rule, b, b2, rv, loc, common, ctypes, self_fields):
+    rname = rv["def"].split("::")[-1]
+    for f in common:
+        if f not in rv["fields"] or ctypes[f]["s"].startswith("core::marker::PhantomData"):
+            continue
+        val = tr.expand(tr.operand(b2, rv["ops"][rv["fields"].index(f)], loc))
+        ok = any(x[0] == "field" and x[2] == f and _rooted_in_self(x, b) for x in tr.walk(val, limit=120))
+        if ok and b2 is b:
+            other = _selected_by_other_field(tr, b, rv["ops"][rv["fields"].index(f)], loc, f, self_fields)
+            stale = None
+            if other:
+                # harmless when every setter of `f` also rewrites the selecting field
+                st_def = _self_adt(b)["def"]
+                for m in b.crate.bodies:
+                    if m.kind != "fn" or m is b:
+                        continue
+                    sm = setter_summary(tr, m)
+                    if sm is None or _self_adt(m)["def"] != st_def:
+                        continue
+                    if sm.get(f, {"self"}) - {"self"} and not (sm.get(other, {"self"}) - {"self"}):
+                        stale = m.name
+            if other and stale:
+                rep.ob(rule, skey(b, "build-select." + f), False, where(b2, loc[0], loc[1]),
+                       "`%s` of the built %s is chosen by a test on the builder's `%s` instead of coming from `%s` alone: a "
+                       "setter of `%s` (`%s`) called after the method that sets `%s` no longer takes effect (the last call does not win)"
+                       % (f, rname, other, f, f, stale, other))
+        rep.ob(rule, skey(b, "build." + f), ok, where(b2, loc[0], loc[1]),
+               "`%s` of the built %s is computed from the builder's `%s`" % (f, rname, f) if ok else
+               "`%s` of the built %s is not computed from the builder's `%s` (%s): the configured value never reaches the "
+               "mechanism" % (f, rname, f, show(peel(val))))
+
+
+def _selected_by_other_field(tr, b, op, loc, f, self_fields):
+    """the operand has several reaching definitions and one of them sits under a branch that tests another field of
+    the builder (and not `f` itself): returns that field's name"""
+    from .util import dominating_edges
+    g = graph(b)
+    pl = op.get("move") or op.get("copy")
+    if pl is None or pl["p"]:
+        return None
+    ds = g.reaching(pl["l"], loc)
+    if len(ds) < 2:
+        return None
+    for d in ds:
+        for e in dominating_edges(tr, b, d[1]):
+            names = {x[2] for x in tr.walk(e["node"], limit=60) if x[0] == "field" and _rooted_in_self(x, b) and isinstance(x[2], str)}
+            names &= set(self_fields)
+            if names and f not in names:
+                return sorted(names)[0]
+    return None
 
 
 def _rooted_in_self(node, b):
